@@ -2,12 +2,14 @@ module github.com/hashicorp/go-plugin/verifharness
 
 go 1.26
 
-require github.com/hashicorp/go-plugin v0.0.0
+require (
+	github.com/hashicorp/go-hclog v0.14.1
+	github.com/hashicorp/go-plugin v0.0.0
+)
 
 require (
 	github.com/fatih/color v1.7.0 // indirect
 	github.com/golang/protobuf v1.5.3 // indirect
-	github.com/hashicorp/go-hclog v0.14.1 // indirect
 	github.com/hashicorp/yamux v0.1.1 // indirect
 	github.com/mattn/go-colorable v0.1.4 // indirect
 	github.com/mattn/go-isatty v0.0.17 // indirect
